@@ -407,6 +407,7 @@ def special_inputs(slow=False):
     out.append(("mbox", "special:mbox-second-message-nul-in-encoded-word", good + b"From c@x.org Tue Jan  2 00:00:00 2024\nFrom: C <c@x.org>\n"
                 b"Subject: =?utf\x00-8?b?YWJj?=\n\nbody\n"))
     out += hostile_name_inputs()
+    out += hostile_zip_shells()
     # multi-result inputs whose LATER result is one of the hostile single messages (a failure after the first result
     # is what distinguishes a CLI that streams from one that prints all or nothing)
     for k_, lab_, b_ in list(out):
@@ -546,6 +547,50 @@ HOSTILE_NAMES = ["{3F2504E0-4F89-11D3-9A0C-0305E82C3301}", "report {final}", "x{
                  "%s", "%(name)s", "//[backup]/q3", "//[x", "//srv\u2100/q3", "http://[::1]/a", "scheme://[x]/a",
                  "https://h/p/a?web=1", "\\\\srv\\share\\a", "a\nb", "a\tb", "\uff0e\uff0e/a", "a\uff0fb", "\u202egnp",
                  "a" * 300, "[1]", "a;b", "*", "?", "<x>", "|", "..", "../../up", "/abs/name", "C:\\dir\\f", " ", ""]
+
+
+def _raw_zip(members):
+    """members: (name_bytes, flags, method, payload_bytes, declared_uncompressed_size, crc or None).  Writes the records
+    as given: nothing is checked, so names, flags, methods and payloads may contradict each other."""
+    import struct
+    import zlib
+    out, cd = b"", b""
+    for name, flags, method, payload, usize, crc in members:
+        crc = zlib.crc32(payload) if crc is None else crc
+        off = len(out)
+        out += struct.pack("<IHHHHHIIIHH", 0x04034B50, 20, flags, method, 0, 0x5821, crc, len(payload), usize, len(name), 0) + name + payload
+        cd += struct.pack("<IHHHHHHIIIHHHHHII", 0x02014B50, 20, 20, flags, method, 0, 0x5821, crc, len(payload), usize, len(name), 0, 0, 0, 0, 0, off) + name
+    return out + cd + struct.pack("<IHHHHIIH", 0x06054B50, 0, 0, len(members), len(members), len(cd), len(out), 0)
+
+
+def hostile_zip_shells():
+    """Well-formed ZIP shells with one hostile record each, as every ZIP-based format and the archive extractor see
+    them (and read_file under names without a known extension): a member name flagged UTF-8 that is not UTF-8, a
+    'mimetype' / main part with a corrupt deflate stream, an unknown compression method, the encrypted flag, a CRC that
+    does not match, an understated size."""
+    import zlib
+    odt_mime = b"application/vnd.oasis.opendocument.text"
+    deflated = zlib.compress(b"<x/>" * 50)[2:-4]
+    shells = {
+        "utf8-flag-non-utf8-name": [(b"caf\xe9\xff.txt", 0x800, 0, b"hello", 5, None)],
+        "mimetype-corrupt-deflate": [(b"mimetype", 0, 8, b"\xff\xfe\xfd\xfc" * 4, len(odt_mime), None), (b"content.xml", 0, 0, b"<x/>", 4, None)],
+        "mimetype-unknown-method": [(b"mimetype", 0, 77, odt_mime, len(odt_mime), None), (b"content.xml", 0, 0, b"<x/>", 4, None)],
+        "mimetype-encrypted-flag": [(b"mimetype", 1, 0, bytes(12) + odt_mime, len(odt_mime), None), (b"content.xml", 0, 0, b"<x/>", 4, None)],
+        "mimetype-bad-crc": [(b"mimetype", 0, 0, odt_mime, len(odt_mime), 0xDEADBEEF), (b"content.xml", 0, 0, b"<x/>", 4, None)],
+        "mimetype-understated-size": [(b"mimetype", 0, 8, zlib.compress(odt_mime * 40)[2:-4], 5, None)],
+        "document-xml-corrupt-deflate": [(b"[Content_Types].xml", 0, 0, b"<Types/>", 8, None), (b"word/document.xml", 0, 8, b"\x07" * 9, 200, None)],
+        "workbook-unknown-method": [(b"xl/workbook.xml", 0, 99, b"<workbook/>", 11, None)],
+        "presentation-encrypted-flag": [(b"ppt/presentation.xml", 0x41, 8, deflated, 200, None)],
+        "epub-mimetype-non-utf8-name": [(b"mimetype", 0, 0, b"application/epub+zip", 20, None), (b"OEBPS/\xff\xfe.xhtml", 0x800, 0, b"<html/>", 7, None)],
+        "lzma-method-garbage": [(b"mimetype", 0, 14, b"\x09\x14\x05\x00" + bytes(9), len(odt_mime), None)],
+        "bzip2-method-garbage": [(b"mimetype", 0, 12, b"BZh9" + bytes(12), len(odt_mime), None)],
+    }
+    out = []
+    for lab, members in shells.items():
+        data = _raw_zip(members)
+        for kind in ("zip", "odt", "docx", "epub"):
+            out.append((kind, f"special:zip-shell-{lab}" + ("" if kind == "zip" else f"-as-{kind}"), data))
+    return out
 
 
 def hostile_name_inputs():
